@@ -302,3 +302,24 @@ PLANS["C15"] = dict(
              validate=dict(module="Trace_CRLCacheSeq", cfg=C15_TRACE)),
     ],
 )
+
+# ------------------------------------------------------------------ C10
+PLANS["C10"] = dict(
+    level_text="notation.Verify is modelled call by call (argument check, skip check, reference parsing, resolution, digest pin, paged listing "
+               "with the bounded early-exit loop); TLC checks on every step that success is equivalent to the declarative statement, that the "
+               "fetch/verify calls on success are exactly 1..k, that never more than N signatures are fetched and nothing follows a success, "
+               "for all listings (valid/invalid/unfetchable), all pagings including empty pages, all limits and reference kinds; every case is "
+               "replayed against the real notation.Verify with an instrumented repository and verifier and the recorded call log is validated.",
+    level_note="Trusted: TLC, oras reference parsing. Which error is returned on failure is not compared (only success/failure, returned values, call log).",
+    rule="cases = all (listing, paging, limit, reference, skip) of MC_Notation_C10; non-trivial = listing longer than 1, non-positive limit, skip or a bad reference",
+    exhaustive=True,
+    phases=[dict(
+        name="loop",
+        gen=dict(module="MC_Notation_C10",
+                 cfg=lambda tier, seed: mc_cfg(["Inv_C10", "Inv_Bounded", "Inv_Emit"], consts=["MaxLen = 6" if tier == "thorough" else "MaxLen = 4", "MaxN = 7" if tier == "thorough" else "MaxN = 5"],
+                                               extra=["PROPERTY Prop_ProcessedMonotone"]),
+                 select=slicer(400000)),
+        drive=dict(driver="notation-verify"),
+        validate=dict(module="Trace_Notation", cfg=trace_cfg()),
+    )],
+)
